@@ -153,6 +153,84 @@ Section Search.
     destruct v; try discriminate. intros _. exact (dfs_sound _ _ _ _ _ E).
   Qed.
 
+  (* ---------------------------------------------------------------- completeness
+     (not needed for soundness of a check that only trusts LinYes; it says the search is not
+     stricter than the definition: LinNo is a proof that no linearization exists) *)
+
+  Lemma Forall_minimal e others :
+    Forall (fun o => before o e = false) others -> minimal e others = true.
+  Proof.
+    intro H. unfold minimal. apply forallb_forall. intros o Ho.
+    rewrite Forall_forall in H. now rewrite (H o Ho).
+  Qed.
+
+  Lemma try_cands_complete rec d s :
+    (forall s' p b b', (length p <= d)%nat -> rec s' p b = (LinNo, b') -> ~ linearizable_from s' p) ->
+    forall cands pre budget b',
+      (length pre + length cands <= S d)%nat ->
+      try_cands rec s pre cands budget = (LinNo, b') ->
+      forall c1 e c2, cands = c1 ++ e :: c2 ->
+        minimal e (rev pre ++ c1 ++ c2) = true ->
+        resp_eqb sp (snd (step sp s (ev_op e))) (ev_resp e) = true ->
+        ~ linearizable_from (fst (step sp s (ev_op e))) (rev pre ++ c1 ++ c2).
+  Proof.
+    intros Hrec. induction cands as [|x cs IH]; intros pre budget b' Hlen H c1 e c2 Hsplit Hmin Hresp.
+    - destruct c1; discriminate.
+    - cbn [try_cands] in H. destruct (budget =? 0) eqn:Eb; [discriminate|].
+      destruct c1 as [|y c1'].
+      + cbn [app] in Hsplit. inversion Hsplit; subst x cs. cbn [app] in *.
+        rewrite rev_append_rev in H. rewrite Hmin in H.
+        destruct (step sp s (ev_op e)) as [s' r] eqn:Es. cbn [fst snd] in *. rewrite Hresp in H.
+        destruct (rec s' (rev pre ++ c2) (budget - 1)) as [v b] eqn:Erec.
+        destruct v; try discriminate.
+        apply (Hrec _ _ _ _) in Erec; [exact Erec|].
+        rewrite app_length, rev_length. cbn [length] in Hlen. apply le_S_n.
+        rewrite <- Hlen. rewrite <- plus_n_Sm. apply le_n.
+      + cbn [app] in Hsplit. inversion Hsplit; subst y cs.
+        assert (Hnext : exists b, try_cands rec s (x :: pre) (c1' ++ e :: c2) b = (LinNo, b')).
+        { destruct (minimal x (rev_append pre (c1' ++ e :: c2))); [|eauto].
+          destruct (step sp s (ev_op x)) as [sx rx].
+          destruct (resp_eqb sp rx (ev_resp x)); [|eauto].
+          destruct (rec sx (rev_append pre (c1' ++ e :: c2)) (budget - 1)) as [v b].
+          destruct v; try discriminate. eauto. }
+        destruct Hnext as [b Hb].
+        assert (Hlen' : (length (x :: pre) + length (c1' ++ e :: c2) <= S d)%nat).
+        { cbn [length] in *. rewrite <- plus_n_Sm in Hlen. exact Hlen. }
+        specialize (IH (x :: pre) b b' Hlen' Hb c1' e c2 eq_refl).
+        cbn [rev] in IH. rewrite <- !app_assoc in IH. cbn [app] in IH, Hmin |- *.
+        exact (IH Hmin Hresp).
+  Qed.
+
+  Lemma dfs_complete : forall d s pend b b',
+    (length pend <= d)%nat -> dfs d s pend b = (LinNo, b') -> ~ linearizable_from s pend.
+  Proof.
+    induction d as [|d IH]; intros s pend b b' Hlen H.
+    - destruct pend; cbn in H; discriminate.
+    - destruct pend as [|e0 t]; [cbn in H; discriminate|].
+      cbn [dfs] in H. intros (l & Hp & Hrt & Hseq).
+      destruct l as [|e l'].
+      { apply Permutation_nil in Hp. discriminate. }
+      assert (Hin : In e (e0 :: t)) by (apply (Permutation_in _ Hp); now left).
+      apply in_split in Hin. destruct Hin as (c1 & c2 & Hsplit).
+      rewrite Hsplit in Hp. apply Permutation_cons_app_inv in Hp.
+      inversion Hrt as [|? ? Hfa Hrt']; subst.
+      cbn [seq_ok] in Hseq. destruct (step sp s (ev_op e)) as [s' r] eqn:Es.
+      apply andb_prop in Hseq. destruct Hseq as [Hr Hseq'].
+      assert (Hl : (length (@nil ev) + length (e0 :: t) <= S d)%nat) by exact Hlen.
+      refine (try_cands_complete (dfs d) d s IH (e0 :: t) [] b b' Hl H c1 e c2 Hsplit _ _ _).
+      + cbn [rev app]. apply Forall_minimal. exact (Permutation_Forall Hp Hfa).
+      + now rewrite Es.
+      + rewrite Es. cbn [fst rev app]. exists l'. repeat split; assumption.
+  Qed.
+
+  Theorem lin_search_complete budget h :
+    lin_search budget h = LinNo ->
+    ~ exists l, Permutation l h /\ rt_ok l /\ seq_ok (init sp) l = true.
+  Proof.
+    unfold lin_search. destruct (dfs (length h) (init sp) h budget) as [v b] eqn:E. cbn [fst].
+    intro Hv; subst v. exact (dfs_complete _ _ _ _ _ (le_n _) E).
+  Qed.
+
   (* a sequential history (each operation returns before the next is called) has exactly one
      admissible order: itself.  Useful as a sanity lemma for harnesses. *)
   Lemma rt_ok_cons e l : rt_ok (e :: l) <-> Forall (fun o => before o e = false) l /\ rt_ok l.
